@@ -353,6 +353,22 @@ func (ex *Exec) runGhost(s *State, site, when string, results []Val) {
 			continue
 		}
 		env := ex.rootEnv(s, results)
+		switch g.Kind {
+		case "let":
+			if s.Lets == nil {
+				s.Lets = map[string]SV{}
+			}
+			s.Lets[g.Name] = env.eval(g.RHS)
+			continue
+		case "assert":
+			label := g.Clause.Label
+			if label == "" {
+				label = "a"
+			}
+			ex.oblige(s, fmt.Sprintf("%s#assert.%s.%s", ex.key, g.Site, label), "assert", ex.fn.Pos(), g.Clause.Tags,
+				ex.evalBool(env, g.Clause.Expr), g.Clause.Src)
+			continue
+		}
 		if g.Cond != nil {
 			c := ex.evalBool(env, g.Cond)
 			// conditional ghost update: new = ite(c, rhs, old)
